@@ -39,7 +39,9 @@ def load_files(*file_names: Union[str, Path]) -> Database:
         elif p.suffix.lower().startswith(".odx"):
             db.add_odx_file(str(file_name))
         elif p.name.lower() != "index.xml":
-            db.add_auxiliary_file(str(file_name))
+            # auxiliary files are referenced by their name, not by
+            # the path used to load them
+            db.add_auxiliary_file(p.name, open(str(p), "rb"))
 
     db.refresh()
     return db
